@@ -622,6 +622,7 @@ fn script_huge(_rng: &mut Rng, _tier: Tier, ex: &mut dyn FnMut(&str) -> String, 
     let total = 70_000u64;
     ex(&format!("sendn c0 {} {} 7", ch, total));
     let mut next = 0usize;
+    let mut next_s = 0usize;
     let mut first = true;
     // 350 000 payload bytes at 600 000 per tick: everything goes out in the first flush
     for _ in 0..3 {
@@ -637,11 +638,14 @@ fn script_huge(_rng: &mut Rng, _tier: Tier, ex: &mut dyn FnMut(&str) -> String, 
         first = false;
         next += k;
         ex(&format!("recvn s100 {} 1000000", ch));
+        // the acks reach the sender at once: what was acknowledged is forgotten and never sent again
         let a = pkts_count(&ex("flush s100"));
-        let _ = a;
+        for i in 0..a {
+            ex(&format!("dlv c0 s100 {}", next_s + i));
+        }
+        next_s += a;
     }
-    // heal: acks flow, the lost packet is retransmitted
-    let mut next_s = 0usize;
+    // heal: the lost packet is retransmitted
     for _ in 0..6 {
         ex("upd c0 310000");
         ex("upd srv 310000");
